@@ -115,6 +115,13 @@ func (c *RunnerCloserManager) AddCloser(closers ...any) error {
 	c.mngr.lock.Lock()
 	defer c.mngr.lock.Unlock()
 
+	// Checked again under the lock: Run marks the manager as closing and takes
+	// the closers it invokes under the same lock, so a closer is either invoked
+	// or rejected here.
+	if c.closing.Load() {
+		return ErrManagerAlreadyClosed
+	}
+
 	var errs []error
 	for _, cl := range closers {
 		switch v := cl.(type) {
